@@ -17,10 +17,10 @@ pub enum Term {
 }
 thread_local! {
     /// number of clone() calls on Var(i), per i
-    pub static CLONES: RefCell<Vec<u64>> = RefCell::new(vec![0; 2048]);
+    pub static CLONES: RefCell<Vec<u64>> = RefCell::new(vec![0; 8192]);
 }
 pub fn reset_clones() { CLONES.with(|c| c.borrow_mut().iter_mut().for_each(|x| *x = 0)); }
-pub fn clones(n: usize) -> Vec<u64> { CLONES.with(|c| c.borrow()[..n.min(2048)].to_vec()) }
+pub fn clones(n: usize) -> Vec<u64> { CLONES.with(|c| c.borrow()[..n.min(8192)].to_vec()) }
 impl Clone for Term {
     fn clone(&self) -> Self {
         match self {
